@@ -39,8 +39,8 @@ def fmt_val(v):
     None into NaN and ints into floats or numpy ints)"""
     if v is None:
         return "N"
-    if isinstance(v, tuple) and len(v) == 1 and isinstance(v[0], list):
-        v = v[0]  # see mk_mrep: a list handed out inside a 1-tuple
+    if isinstance(v, tuple | list) and len(v) == 1 and isinstance(v[0], list):
+        v = v[0]  # see mk_mrep: a list handed out inside a 1-tuple / as the only item of a list (a list of lists)
     if isinstance(v, list | tuple):
         return "L" + ",".join(str(int(x)) for x in v)
     if isinstance(v, float):
@@ -203,23 +203,35 @@ def mk_mrep(rep, model, idx):
         return f"x{rep[1]}"
     if rep[0] == "fn":
         f = rep[1]
+        # a reporter that hands out a NESTED value whose inner object is the live mutable list: as a list of lists
+        # `[model.xa]` for an odd attribute number (any position), inside an (immutable) 1-tuple for an even one at an odd
+        # position.  The stored value must still be immune to a later `model.xa.append(..)` = an append to the INNER list
+        # (a shallow copy shares it; the Lean counterpart is `C12_shallow_copy_not_immune`).  fmt_val unwraps the wrapper
+        # again: the driver's model keeps immutable values, which `C12_deepcopy_makes_stored_values_immune` (any depth)
+        # justifies.
+        as_list = len(f) > 1 and f[-1] % 2 == 1
+
+        def value(m, f_=f):
+            v = F_eval(f_, m)
+            if as_list and isinstance(v, list):
+                return [v]
+            return v
+
         if idx % 2 == 1:
-            # a reporter that hands out a live mutable object wrapped in an (immutable) tuple: the stored value must
-            # still be immune to later mutation of the object (fmt_val unwraps the 1-tuple again)
             def wrapped(m):
-                v = F_eval(f, m)
-                return (v,) if isinstance(v, list) else v
+                v = value(m)
+                return (v,) if isinstance(v, list) and not as_list else v
 
             return wrapped
         if idx % 3 == 0:
-            return lambda m: F_eval(f, m)
+            return lambda m: value(m)
         if idx % 3 == 1:
 
             def plain(m):
-                return F_eval(f, m)
+                return value(m)
 
             return plain
-        return lambda m, f_=f: F_eval(f_, m)
+        return lambda m, f_=f: value(m, f_)
     if rep[0] == "part":
         # not a types.LambdaType: the validation of the first collect does not call it
         return functools.partial(F_eval, rep[1])
@@ -425,6 +437,8 @@ class World:
         self.handles = {}
         self.reordered = False  # model.agents was reordered in place at some point
         self.collects = []  # what every collect() call saw, evaluated directly
+        self.inner_changes = []  # in-place appends to a model list that changed what the collector holds (must stay empty)
+        self.inner_appends = 0  # in-place appends made while the collector held a nested value (list in a tuple / in a list)
         self.table_log = []  # (table, row dict or None if rejected, kind)
 
     def type_key(self, T):
@@ -487,7 +501,17 @@ class World:
                 setattr(m, f"x{to_nat(ws[1])}", parse_val(ws[2]))
             elif k == "mapp" and len(ws) == 3:
                 a, x = to_nat(ws[1]), to_int(ws[2])
-                getattr(m, f"x{a}").append(x)
+                append = getattr(m, f"x{a}").append
+                # C12 clause "stored value unchanged after inner append": whatever the collector holds (flat lists, lists
+                # inside a tuple, lists of lists) must read the same before and after this in-place mutation
+                before = repr(self.dc.model_vars)
+                nested = any(isinstance(v, list | tuple) and any(isinstance(x, list) for x in v)
+                             for vs in self.dc.model_vars.values() for v in vs)
+                append(x)
+                after = repr(self.dc.model_vars)
+                self.inner_appends += int(nested)
+                if before != after:
+                    self.inner_changes.append([f"x{a}", x, before, after])
             elif k == "mdel" and len(ws) == 2:
                 delattr(m, f"x{to_nat(ws[1])}")
             elif k == "aset" and len(ws) == 4:
@@ -674,6 +698,7 @@ def run_collect(sc):
         "spec": spec, "events": events,
         "collects": world.collects if world else [], "table_log": world.table_log if world else [],
         "tables": world.final_tables() if world else [],
+        "inner_changes": world.inner_changes if world else [], "inner_appends": world.inner_appends if world else 0,
     }
     return obs
 
@@ -714,6 +739,9 @@ def oracle_collect(sc, obs):
         return []
     spec, bad = tr["spec"], []
     collects, table_log = tr["collects"], tr["table_log"]
+    for attr, x, before, after in tr.get("inner_changes", []):
+        bad.append(f"inner-append: stored value changed after model.{attr}.append({x}) (an append to a list the reporter had "
+                   f"handed out, possibly as the inner list of a nested value): model_vars `{before}` became `{after}`")
     for ev in tr["events"]:
         if ev[0] != "obs":
             continue
